@@ -10,7 +10,8 @@ package ttlv
 //@ spec be64(b []byte, o int) uint64 = uint64(be32(b, o))<<32 | uint64(be32(b, o+4))
 //@ spec tagOf(b []byte) int = int(b[0])<<16 | int(b[1])<<8 | int(b[2])
 //@ spec lenOf(b []byte) int = int(be32(b, 4))
-//@ spec hdOK(b []byte) bool = len(b) == 0 || (len(b) >= 8 && 8+padded(lenOf(b)) <= len(b) && 1 <= b[3] && b[3] <= 10)
+//@ spec lenOK(b []byte) bool = ((b[3] == 2 || b[3] == 5 || b[3] == 10) ==> lenOf(b) == 4) && ((b[3] == 3 || b[3] == 6 || b[3] == 9) ==> lenOf(b) == 8) && (b[3] == 4 ==> lenOf(b) != 0 && lenOf(b)&7 == 0)
+//@ spec hdOK(b []byte) bool = len(b) == 0 || (len(b) >= 8 && 8+padded(lenOf(b)) <= len(b) && 1 <= b[3] && b[3] <= 10 && lenOK(b))
 //@ spec advanced(nb []byte, ob []byte) bool = nb == ob[8+padded(lenOf(ob)):]
 
 //@ func padForLen
@@ -23,7 +24,7 @@ package ttlv
 // binary reader
 
 //@ func newTTLVReader
-//@   ensures r1 == nil ==> r0 != nil && r0.buf == buf && hdOK(buf)
+//@   ensures r1 == nil ==> r0 != nil && isnew(r0) && r0.buf == buf && hdOK(buf)
 //@   ensures r1 != nil ==> r0 == nil
 //@   pure
 
